@@ -37,6 +37,7 @@ var c05RawHandlers = map[string]string{
 }
 
 func runC05(c *Ctx) {
+	c05CaseAlwaysNormalised(c)
 	p := c.P
 	c.Rule("REGISTRY", "lint rule builders, handlers, IDs and spec tables are mutually consistent", 150)
 	c.Rule("IMPORTS-SKIPPED", "lint handlers only ever see non-import files", 45)
